@@ -125,23 +125,72 @@ def run(F, R, tier):
         if not R.anchor("serialiser of %s" % spec["pkt"], f):
             continue
         b = H.body_of(f)
-        txt = H.render(b)
-        arg = f["hir"]["params"][0].get("name")
-        hdr_first = re.search(r"let header = %s\.header\.borrow\(\)\.clone\(\); let bytes = &header\.into\(\)" % arg, txt) is not None
-        tails = [x for x in H.walk(b) if x.get("k") == "mcall" and x["m"] == "extend_from_slice"]
-        tail_txt = [H.render(x["args"][0]) for x in tails]
-        if name == "packet":
-            raw_ok = any(t == "&%s.rawdata.borrow().clone()" % arg for t in tail_txt)
-        else:
-            raw_ok = any(t == "&data[ops::RangeFrom{start: %s.offset}]" % arg for t in tail_txt) and \
-                ("let data = %s.rawdata.borrow().clone()" % arg) in txt
-        inner_ok = True
-        if "inner" in txt:
-            inner_ok = ("if let v1::Some(inner) = %s.inner.borrow().clone()" % arg) in txt and "let data = inner.as_ref().into()" in txt or \
-                ("let b = inner.as_ref().into()" in txt)
-        R.ob("packet-serialiser-shape", spec["pkt"], hdr_first and raw_ok and inner_ok and len(tails) <= 2,
-             "header first: %s; raw tail from the recorded offset: %s; cached inner serialised whole: %s; tails: %s"
-             % (hdr_first, raw_ok, inner_ok, tail_txt), F.loc(f))
+        arg_id = f["hir"]["params"][0].get("id")
+        # what the serialiser appends, in order, on every path: resolved through named temporaries / borrows / clones
+        lets, somes = {}, {}
+        for x in H.walk(b):
+            if x.get("k") == "let" and x.get("pat", {}).get("k") == "bind" and x.get("init") is not None:
+                lets[x["pat"]["id"]] = x["init"]
+            if x.get("k") == "let" and x.get("pat", {}).get("k") == "ts" and H.last(x["pat"]["res"].get("path") or "") == "Some" and x.get("init") is not None:
+                for p_ in x["pat"].get("pats", []):
+                    if p_.get("k") == "bind":
+                        somes[p_["id"]] = x["init"]
+            if x.get("k") == "match" and not H.is_try(x):
+                for a_ in x["arms"]:
+                    pt = a_["pat"]
+                    if pt.get("k") == "ts" and H.last(pt["res"].get("path") or "") == "Some":
+                        for p_ in pt.get("pats", []):
+                            if p_.get("k") == "bind":
+                                somes[p_["id"]] = x["scrut"]
+
+        def cls(e, d=0):
+            """'header' | 'inner' | ('into', X) | ('tail', 'rawdata', 'offset') | ('whole', 'rawdata') | '?'"""
+            if d > 10 or e is None:
+                return "?"
+            e = H.strip(e)
+            if e.get("k") == "mcall" and e["m"] in ("borrow", "clone", "as_ref", "deref", "to_vec", "as_slice", "to_owned") and not e.get("args"):
+                return cls(e["recv"], d + 1)
+            if e.get("k") in ("mcall", "call") and H.last(e.get("callee") or e.get("m") or "") in ("into", "from") and len(([e["recv"]] if e.get("k") == "mcall" else []) + e.get("args", [])) == 1:
+                inner = cls((([e["recv"]] if e.get("k") == "mcall" else []) + e.get("args", []))[0], d + 1)
+                return ("into", inner)
+            if H.is_local(e):
+                i = H.local_id(e)
+                if i in lets:
+                    return cls(lets[i], d + 1)
+                if i in somes:
+                    src = cls(somes[i], d + 1)
+                    return src
+                return "?"
+            if e.get("k") == "field" and H.is_local(H.strip(e["e"])) and H.local_id(H.strip(e["e"])) == arg_id:
+                return {"header": "header", "inner": "inner", "rawdata": ("whole", "rawdata"), "offset": "offset"}.get(e["name"], "?" + e["name"])
+            if e.get("k") == "index":
+                base, i = cls(e["e"], d + 1), H.strip(e["i"])
+                if base == ("whole", "rawdata") and i.get("k") == "struct" and H.last(i["res"].get("path") or "") == "RangeFrom":
+                    st = cls(i["fields"][0]["e"], d + 1)
+                    return ("tail", "rawdata", st)
+                return "?"
+            return "?"
+        seqs = set()
+        for evs, ex in H.paths(b, lambda c: None):
+            seq = []
+            for e_ in evs:
+                if e_[0] == "call" and H.last(str(e_[1])) in ("extend_from_slice", "extend", "append", "push"):
+                    n_ = e_[2]
+                    args_ = n_.get("args", [])
+                    seq.append(cls(args_[0]) if args_ else "?")
+            seqs.add(tuple(seq))
+        # the vector the appends go to starts as the header's bytes (`(&header).into()`; conversions are transparent here)
+        norm = lambda c: c[1] if isinstance(c, tuple) and c[0] == "into" else c
+        seqs = {tuple(norm(c) for c in q) for q in seqs}
+        recvs = {H.local_id(H.strip(x["recv"])) for x in H.walk(b) if x.get("k") == "mcall" and x["m"] in ("extend_from_slice", "extend", "append", "push") and H.is_local(H.strip(x["recv"]))}
+        init = {norm(cls(lets[i])) for i in recvs if i in lets}
+        raw = ("whole", "rawdata") if name == "packet" else ("tail", "rawdata", "offset")
+        arms_ = L.prop_arms(F, spec["exec"]) or {}
+        has_inner = any(info.get("kind") == "layer" for info in arms_.values())
+        want = {("inner",), (raw,)} if has_inner else {(raw,)}
+        ok_seq = (seqs == want) or (not has_inner and seqs <= {("inner",), (raw,)} and (raw,) in seqs)
+        R.ob("packet-serialiser-shape", spec["pkt"], init == {"header"} and ok_seq,
+             "the output starts as the bytes of %s (want the header); then, per path, appends %s (want %s)" % (sorted(init, key=repr), sorted(seqs, key=repr), sorted(want, key=repr)), F.loc(f))
 
     # Object serialiser: layer variants delegate, non-layer variants (incl. Err) yield no bytes
     fo = F.fn("object::<impl std::convert::From<&object::Object> for std::vec::Vec<u8>>::from")
